@@ -373,8 +373,6 @@ def check_degree_labels(case):
     got = max([len(k) for k in st.d] + [0])
     if got > req:
         return Fail("degree of D is %d > requested %d" % (got, req), key="degree", observed=repr(st.d))
-    if any(len(set(k)) != len(k) for k in st.d):
-        return Fail("D has a key with a repeated label", key="d-key-repeat", observed=repr(st.d))
     # convert_solution reads label mapping[v] for v, and nothing else
     N = st.N
     for i in (0, (1 << N) - 1, 0b101010101010 & ((1 << N) - 1), 0b010101010101 & ((1 << N) - 1)):
